@@ -116,6 +116,23 @@ def run(ctx, chk):
                    key="G1|%s" % nm,
                    msg="the version presented at compute time must depend on every source vector (else results computed "
                        "under a different source version are kept)")
+    # G1b the validation is not skippable: every Ok return of a compute_* method is preceded by a validating
+    # call (compute_init / validate_*) or by a forward to another compute_* method
+    vm = M(r".*", where=lambda body, b, t: any(
+        (g in VALIDATORS or is_compute(g)) for g in (P.resolve(t["callee"])[1] if P.resolve(t["callee"])[0] == "ws" else [])))
+    for bid, body in sorted(comp.items()):
+        if bid.endswith("compute_init"):
+            continue
+        vs = O.sites(body, vm)
+        inn = O.seen_before(body, vs)
+        ek = O.exit_kinds(body)
+        bad = [b for b, k in ek.items() if k == "ok" and not inn[b] and b not in vs]
+        nm = bid.split("::")[-1]
+        chk.oblige("G1b %s: every Ok return passes the version validation" % nm, not bad,
+                   detail={"unvalidated_returns": [body.blocks[b]["term"].get("span") or bid for b in bad]},
+                   key="G1b|%s" % nm,
+                   msg="a compute call must not return Ok without having compared versions (a source whose version "
+                       "changed but whose length did not would keep stale results)")
     chk.cov["compute_methods"] = len(comp) - 1
     chk.cov["source_parameters"] = n_src
     # G2 ordering inside compute_init
